@@ -690,7 +690,8 @@ func c12Fanout(p *Prog, rp *Report) {
 			}
 			if v.reader {
 				if len(tee) != 1 || !isObj(retStream, "TeeReader") {
-					problems = append(problems, fmt.Sprintf("%v: the returned reader is not one io.TeeReader", req))
+					// not the library's tee: the stream's own Read is interpreted against a scripted source
+					problems = append(problems, streamBehaviour(p, m, out[0], retStream, true, tid, hashers, multiArgs, fmt.Sprint(req))...)
 					continue
 				}
 				if iv, ok := tee[0][0].(IfaceV); !ok || iv.V != (Ptr{Obj: tid}) {
@@ -705,7 +706,8 @@ func c12Fanout(p *Prog, rp *Report) {
 				targetFed = true
 			} else {
 				if len(multiArgs) != 1 || !isObj(retStream, "MultiWriter") {
-					problems = append(problems, fmt.Sprintf("%v: the returned writer is not one io.MultiWriter", req))
+					// not the library's fan-out writer: the stream's own Write is interpreted against a recording target
+					problems = append(problems, streamBehaviour(p, m, out[0], retStream, false, tid, hashers, multiArgs, fmt.Sprint(req))...)
 					continue
 				}
 				feedList(multiArgs[0])
@@ -862,4 +864,212 @@ func c12Close(p *Prog, rp *Report) {
 	} else {
 		r.bad("control.FileHashFromHasher", "", "function not found", nil)
 	}
+}
+
+// streamBehaviour decides a hashing reader / writer that is not io.TeeReader / io.MultiWriter by interpreting its
+// own Read / Write: the caller's stream is a scripted oracle, the hash objects record what they are given, an
+// io.MultiWriter inside is trusted to hand its argument to each of its elements. Every chunk must reach the
+// caller unchanged and every returned hasher exactly once, whatever error accompanies it.
+func streamBehaviour(p *Prog, m *Machine, st0 *State, stream Val, reader bool, tid int, hashers []Val, multiArgs [][]Val, req string) []string {
+	iv, ok := stream.(IfaceV)
+	if !ok {
+		return []string{req + ": the returned stream is neither the library's tee / fan-out nor a value with methods"}
+	}
+	name := "Write"
+	if reader {
+		name = "Read"
+	}
+	fn := p.SSA.LookupMethod(iv.T, nil, name)
+	if fn == nil {
+		if pt, isPtr := iv.T.(*types.Pointer); isPtr {
+			if n, isNamed := pt.Elem().(*types.Named); isNamed {
+				fn = p.SSA.LookupMethod(iv.T, n.Obj().Pkg(), name)
+			}
+		}
+	}
+	if fn == nil || fn.Blocks == nil || !inRepoOrRef(fn) {
+		return []string{fmt.Sprintf("undecided: %s: the returned stream has the dynamic type %s whose %s is not repository code", req, iv.T, name)}
+	}
+	var tags []string
+	for _, h := range hashers {
+		tags = append(tags, hashTag(st0, h))
+	}
+	type chunk struct {
+		data string
+		err  bool // the caller's stream reports an error together with (readers) / instead of part of (writers) this chunk
+	}
+	var problems []string
+	for _, script := range [][]chunk{{{"abc", false}, {"de", false}}, {{"abc", false}, {"de", true}}, {{"", true}}, {{"abcdefgh", false}}} {
+		st := st0.Clone()
+		st.Status = stRun
+		st.Frames = nil
+		fed := map[string]string{} // hash tag -> bytes received
+		passed := ""               // writers: bytes the caller's writer received
+		step := 0
+		prev := m.InvokeHook
+		m.InvokeHook = func(m *Machine, s *State, call *ssa.CallCommon, recv Val, args []Val) ([]Val, bool) {
+			rv := recv
+			if x, isI := rv.(IfaceV); isI {
+				rv = x.V
+			}
+			pp, isPtr := rv.(Ptr)
+			bytesOf := func(v Val) (string, bool) {
+				elems, many, ok := m.sliceElems(s, v)
+				if !ok || many {
+					return "", false
+				}
+				var sb strings.Builder
+				for _, e := range elems {
+					n, isInt := e.(int64)
+					if !isInt {
+						return "", false
+					}
+					sb.WriteByte(byte(n))
+				}
+				return sb.String(), true
+			}
+			if isPtr && pp.Obj == tid {
+				switch call.Method.Name() {
+				case "Read":
+					buf, isSl := args[0].(SliceV)
+					if !isSl || buf.Abs || step >= len(script) {
+						return nil, false
+					}
+					c := script[step]
+					step++
+					n := len(c.data)
+					if n > buf.Len_ {
+						n = buf.Len_
+					}
+					for i := 0; i < n; i++ {
+						s.store(Ptr{Obj: buf.Obj, Path: pathAppend(buf.Path, buf.Lo+i)}, int64(c.data[i]))
+					}
+					var e Val = nilV{}
+					if c.err {
+						e = eofVal
+					}
+					return []Val{&TupleV{E: []Val{int64(n), e}}}, true
+				case "Write":
+					b, ok := bytesOf(args[0])
+					if !ok {
+						return nil, false
+					}
+					if step < len(script) && script[step].err {
+						k := len(b) / 2
+						passed += b[:k]
+						return []Val{&TupleV{E: []Val{int64(k), IfaceV{T: errType, V: "write failed"}}}}, true
+					}
+					passed += b
+					return []Val{&TupleV{E: []Val{int64(len(b)), nilV{}}}}, true
+				}
+				return nil, false
+			}
+			if tag := hashTag(s, recv); tag != "" && call.Method.Name() == "Write" {
+				if strings.HasPrefix(tag, "MultiWriter#") {
+					var k int
+					fmt.Sscanf(tag, "MultiWriter#%d", &k)
+					b, ok := bytesOf(args[0])
+					if !ok || k < 1 || k > len(multiArgs) {
+						return nil, false
+					}
+					for _, e := range multiArgs[k-1] {
+						if t := hashTag(s, e); t != "" {
+							fed[t] += b
+						}
+						if x, isI := e.(IfaceV); isI {
+							e = x.V
+						}
+						if ep, isP := e.(Ptr); isP && ep.Obj == tid {
+							passed += b
+						}
+					}
+					return []Val{&TupleV{E: []Val{int64(len(b)), nilV{}}}}, true
+				}
+				b, ok := bytesOf(args[0])
+				if !ok {
+					return nil, false
+				}
+				fed[tag] += b
+				return []Val{&TupleV{E: []Val{int64(len(b)), nilV{}}}}, true
+			}
+			if prev != nil {
+				return prev(m, s, call, recv, args)
+			}
+			return nil, false
+		}
+		desc := func() string {
+			var parts []string
+			for _, c := range script {
+				parts = append(parts, fmt.Sprintf("%q/err=%v", c.data, c.err))
+			}
+			return strings.Join(parts, ", ")
+		}
+		want := ""
+		undecided := ""
+		for i, c := range script {
+			step = i
+			st.Status = stRun
+			st.Frames = nil
+			var arg Val
+			bufID := 0
+			if reader {
+				arr := &ArrayV{}
+				for k := 0; k < 8; k++ {
+					arr.E = append(arr.E, int64(0))
+				}
+				bufID = st.alloc(types.NewArray(types.Typ[types.Uint8], 8), arr)
+				arg = SliceV{Obj: bufID, Len_: 8, Cap: 8}
+			} else {
+				arg = byteSliceVal(st, []byte(c.data))
+			}
+			st.push(fn, []Val{iv.V, arg}, nil)
+			outs := m.Run(st)
+			if len(outs) != 1 || outs[0].Status != stRet {
+				undecided = retDesc(outs)
+				break
+			}
+			tv, isT := st.Ret.(*TupleV)
+			if !isT || len(tv.E) != 2 {
+				undecided = "unexpected result shape"
+				break
+			}
+			n, _ := tv.E[0].(int64)
+			_, errNil := tv.E[1].(nilV)
+			if reader {
+				want += c.data
+				got := ""
+				for k := 0; k < int(n) && k < 8; k++ {
+					b, _ := st.Heap[bufID].V.(*ArrayV).E[k].(int64)
+					got += string(rune(byte(b)))
+				}
+				if got != c.data || errNil == c.err {
+					problems = append(problems, fmt.Sprintf("%s: source chunks [%s]: Read %d returns %q (error nil: %v), the source delivered %q (error: %v)", req, desc(), i+1, got, errNil, c.data, c.err))
+				}
+			} else {
+				if c.err {
+					if errNil {
+						problems = append(problems, fmt.Sprintf("%s: a failing write of the caller's writer is reported as success", req))
+					}
+					break
+				}
+				want += c.data
+				if int(n) != len(c.data) || !errNil {
+					problems = append(problems, fmt.Sprintf("%s: Write(%q) returns (%d, error nil: %v)", req, c.data, n, errNil))
+				}
+			}
+		}
+		m.InvokeHook = prev
+		if undecided != "" {
+			return []string{"undecided: " + req + ": " + name + " of the returned stream: " + undecided}
+		}
+		for i, t := range tags {
+			if fed[t] != want {
+				problems = append(problems, fmt.Sprintf("%s: chunks [%s]: hasher %d received %q, the stream carried %q", req, desc(), i, fed[t], want))
+			}
+		}
+		if !reader && passed != want && !script[len(script)-1].err {
+			problems = append(problems, fmt.Sprintf("%s: chunks [%s]: the caller's writer received %q, want %q", req, desc(), passed, want))
+		}
+	}
+	return uniq(problems)
 }
